@@ -61,6 +61,9 @@ func NewMesosCommandResponse(mesosCommand MesosCommand, err error) *MesosCommand
 		errStr = ""
 	} else {
 		errStr = err.Error()
+		if len(errStr) == 0 { // Err() keys on the text: an error without text must not read as success
+			errStr = "unspecified error"
+		}
 	}
 
 	return &MesosCommandResponseBase{
